@@ -159,9 +159,23 @@ Fixpoint validate_loop (i : nat) (children : list node) (bodies : list (list nod
   | _ :: r => validate_loop (S i) r bodies
   end.
 
+(* repair C11-empty-plural-case: a plural whose msgid or msgid_plural would be
+   empty cannot be written to a PO file (the library omits an empty
+   msgid_plural, and an empty msgid is the header entry) *)
+Definition empty_plural_case (bodies : list (list node)) : bool :=
+  match bodies with
+  | [cb; dflt] =>
+      match write_body cb, write_body dflt with
+      | [], _ | _, [] => true
+      | _, _ => false
+      end
+  | _ => false
+  end.
+
 Definition validate (body : list node) : outcome unit :=
   bodies <- validate_loop 0 body [body] ;;
-  if forallb reads_back bodies then Ok tt else Err e_validate.
+  if empty_plural_case bodies then Err e_validate
+  else if forallb reads_back bodies then Ok tt else Err e_validate.
 
 (* ------------------------------------------------------------------ *)
 (* xgettext-soy: one PO entry per message                              *)
